@@ -30,6 +30,15 @@ CHECKS["C12"] = dict(
     note="Trusts Python int arithmetic and the harness' 30-line polynomial normal form; value agreement outside the polynomial fragment is decided on the grid {-2..2}^3 only.",
     design="DESIGN.md section 4 C12")
 
+CHECKS["C01"] = dict(
+    technique="Hypothesis-generated pipeline programs; stepwise differential oracle against an independent reference interpreter of the documented node semantics (recording transport + return value + sink files)",
+    text=("Generated-input search over node sequences x parameter placements x initial contexts x payloads (12k cases quick, 80k "
+          "thorough, in 250-case fresh-interpreter shards). Each case is executed by semantiva and by a reference interpreter "
+          "written from the documentation; final data/context, every per-node post-state, the failing node index, the exception "
+          "type and sink files must agree. Sampling, not exhaustive: no claim beyond the explored cases."),
+    note="Trusts the ~400-line reference interpreter (itself validated by 0 disagreements on the unchanged tree and by seeded mutants), Hypothesis, CPython float arithmetic.",
+    design="DESIGN.md section 4 C01")
+
 NOT_YET = {}
 
 
